@@ -34,6 +34,13 @@ pub struct Trace {
     /// element type is an enum with two variants (equality ignores the variant)
     #[serde(default)]
     pub enum_elem: bool,
+    /// element type is larger than a cache line (136 bytes)
+    #[serde(default)]
+    pub big_elem: bool,
+    /// the element type overrides `ne` inconsistently with `eq` (0: consistent, 1: always false, 2: always true);
+    /// the property speaks of equality only
+    #[serde(default)]
+    pub ne_mode: u8,
     /// this many distinct values are appended before the history proper (long-lived storage)
     #[serde(default)]
     pub prefill: u32,
@@ -102,6 +109,10 @@ impl PartialEq for V {
     fn eq(&self, other: &V) -> bool {
         counted_eq(self.class, self.uid, other.class, other.uid)
     }
+    #[allow(clippy::partialeq_ne_impl)]
+    fn ne(&self, other: &V) -> bool {
+        odd_ne(self.class, self.uid, other.class, other.uid)
+    }
 }
 
 impl Elem for V {
@@ -110,6 +121,46 @@ impl Elem for V {
     }
     fn uid(&self) -> u32 {
         self.uid
+    }
+}
+
+/// larger than a cache line
+#[derive(Debug)]
+struct Big {
+    class: u32,
+    uid: u32,
+    _pad: [u64; 16],
+}
+
+impl PartialEq for Big {
+    fn eq(&self, other: &Big) -> bool {
+        counted_eq(self.class, self.uid, other.class, other.uid)
+    }
+    #[allow(clippy::partialeq_ne_impl)]
+    fn ne(&self, other: &Big) -> bool {
+        odd_ne(self.class, self.uid, other.class, other.uid)
+    }
+}
+
+impl Elem for Big {
+    fn make(class: u32, uid: u32) -> Big {
+        Big { class, uid, _pad: [uid as u64; 16] }
+    }
+    fn uid(&self) -> u32 {
+        self.uid
+    }
+}
+
+thread_local! {
+    static NE_MODE: Cell<u8> = const { Cell::new(0) };
+}
+
+/// `!=` as the element type defines it: consistent with `==`, or (adversarially) a constant
+fn odd_ne(a: u32, au: u32, b: u32, bu: u32) -> bool {
+    match NE_MODE.with(|m| m.get()) {
+        1 => false,
+        2 => true,
+        _ => !rel_eq(a, au, b, bu),
     }
 }
 
@@ -508,7 +559,14 @@ impl Property for C19 {
         };
         let zst = rng.chance(1, 16);
         // long-lived storage: thousands of distinct values first, then the history refers to early ones
-        let prefill = if !zst && rng.chance(1, 400) { rng.range(3000, 9000) as u32 } else { 0 };
+        let prefill = if !zst && rng.chance(1, 400) {
+            rng.range(3000, 9000) as u32
+        } else if !zst && rng.chance(1, 40_000) {
+            // beyond 2^16 / 2^20 stored values
+            *rng.pick(&[65_540u32, 1_048_576, 1_048_580, 1_100_000])
+        } else {
+            0
+        };
         if prefill > 0 {
             for o in ops.iter_mut() {
                 if let Op::Fetch(c) = o {
@@ -518,19 +576,29 @@ impl Property for C19 {
                 }
             }
         }
-        Trace { enum_elem: !zst && rng.chance(1, 4), prefill, zst, relation, unwind_at: if zst || prefill > 0 { None } else { unwind_at }, ops }
+        let kind = rng.below(8);
+        Trace { enum_elem: !zst && kind < 2, big_elem: !zst && kind == 2, ne_mode: if rng.chance(1, 6) { rng.range(1, 2) as u8 } else { 0 }, prefill, zst, relation, unwind_at: if zst || prefill > 0 { None } else { unwind_at }, ops }
     }
 
     fn execute(t: &Trace, cov: &mut Cov) -> RunOut {
         if t.zst {
             return execute_zst(t, cov);
         }
-        if t.enum_elem {
+        NE_MODE.with(|m| m.set(t.ne_mode));
+        if t.ne_mode != 0 {
+            cov.hit("reached.ne_inconsistent_with_eq");
+        }
+        let r = if t.enum_elem {
             cov.hit("reached.enum_element_type");
             run_history::<E>(t, cov)
+        } else if t.big_elem {
+            cov.hit("reached.element_larger_than_cache_line");
+            run_history::<Big>(t, cov)
         } else {
             run_history::<V>(t, cov)
-        }
+        };
+        NE_MODE.with(|m| m.set(0));
+        r
     }
 
     fn shrink(t: &Trace) -> Vec<Trace> {
@@ -545,9 +613,15 @@ impl Property for C19 {
             c.relation = Relation::ByClass;
             out.push(c);
         }
-        if t.enum_elem {
+        if t.enum_elem || t.big_elem {
             let mut c = t.clone();
             c.enum_elem = false;
+            c.big_elem = false;
+            out.push(c);
+        }
+        if t.ne_mode != 0 {
+            let mut c = t.clone();
+            c.ne_mode = 0;
             out.push(c);
         }
         if t.prefill > 0 {
